@@ -500,11 +500,85 @@ def run_similar_inputs(ctx):
     return n
 
 
+def run_key_shapes(ctx):
+    """inputs whose mapping keys are unusual - contain `/` (in front, inside, twice), `.`, blanks, `~`, quotes, digits only, are empty -
+    and rules that look at the KEYS (keys ==, keys in, keys != , keys against a regex; a key filter followed by a clause; a block
+    over the filtered entries): the expectations are what `validate` says about each input; `test` must meet all of them in every
+    rendering and both layouts, and with one expectation flipped exactly that case must fail"""
+    paths = {'/pets': {'Enabled': True}, 'a/b': {'Enabled': True}, 'plain': {'Enabled': False}, 'x/y/z': {'Enabled': False},
+             'dotted.key': {'Enabled': True}, 'with blank': {'Enabled': True}, 'til~de': {'Enabled': False}, '7': {'Enabled': True}}
+    inputs = [{'Paths': paths},
+              {'Paths': {'/pets': {'Enabled': False}, 'pets': {'Enabled': True}}},
+              {'Paths': {'pets': {'Enabled': False}, 'b': {'Enabled': True}, 'a/b': {'Enabled': False}}},
+              {'Paths': {'a/b': {'Enabled': True}}, 'Other': {'/pets': 1}},
+              {'Paths': {'plain': {'Enabled': True}}},
+              {'Paths': {'/': {'Enabled': True}, 'q/': {'Enabled': True}, '/q': {'Enabled': False}}},
+              {'Paths': {'/pets': {'Enabled': True, 'sub/key': {'v/w': 1}}}}]
+    rules = ('rule k_eq {\n  Paths[ keys == "/pets" ].Enabled == true\n}\n'
+             'rule k_in {\n  Paths[ keys in ["/pets", "a/b", "dotted.key"] ].Enabled == true\n}\n'
+             'rule k_ne {\n  Paths[ keys != "plain" ].Enabled == true\n}\n'
+             'rule k_re {\n  Paths[ keys == /^.pets$/ ].Enabled == true\n}\n'
+             'rule k_short {\n  Paths[ keys == "pets" ].Enabled == true\n}\n'
+             'rule k_tail {\n  Paths[ keys == "b" ].Enabled == true\n}\n'
+             'rule k_empty {\n  Paths[ keys == "/pets" ] !empty\n}\n'
+             'rule k_block {\n  Paths[ keys == /^[a-z].[a-z]$/ ] {\n    Enabled exists\n    Enabled == true\n  }\n}\n'
+             'rule k_deep {\n  Paths.*[ keys == "sub/key" ][ keys == "v/w" ] == 1\n}\n'
+             'rule k_blank {\n  Paths[ keys == "with blank" ].Enabled == true\n  Paths[ keys == "7" ].Enabled == true\n}\n'
+             'rule k_other when Other exists {\n  Other[ keys == "/pets" ] == 1\n}\n')
+    jobs = []
+    for i, d_ in enumerate(inputs):
+        d = os.path.join(ctx.wd, 'key_v%d' % i)
+        e2e.write_files(d, {'r.guard': rules, 'd.json': json.dumps(d_)})
+        jobs.append({'args': ['validate', '-r', 'r.guard', '-d', 'd.json', '--structured', '-o', 'json', '-S', 'none'], 'cwd': d})
+    truth = []
+    for (c, so, se), d_ in zip(e2e.run_many(jobs), inputs):
+        try:
+            rep = json.loads(so.decode())[0]
+            st = {}
+            for nm in rep['compliant']:
+                st[nm] = 'PASS'
+            for nm in rep['not_applicable']:
+                st[nm] = 'SKIP'
+            for x in rep['not_compliant']:
+                st[x['Rule']['name']] = 'FAIL'
+        except Exception as e:
+            raise ToolingError('validate on an input of the key-shapes family is unreadable (exit %s): %s %s' % (c, e, se[-300:]))
+        truth.append(st)
+    n = 0
+    flips = [None, 0, 2, len(inputs) - 1]
+    jobs, meta = [], []
+    for fi, flip in enumerate(flips):
+        spec = []
+        for i, (d_, st) in enumerate(zip(inputs, truth)):
+            exp = dict(st)
+            if flip == i:
+                exp['k_eq'] = 'FAIL' if st['k_eq'] == 'PASS' else 'PASS'
+            spec.append({'name': 'case%d' % i, 'input': d_, 'expectations': {'rules': exp}})
+        for sfmt, stext in (('json-spec', json.dumps(spec, indent=1)), ('yaml-spec', yaml.safe_dump(spec, sort_keys=False))):
+            d = os.path.join(ctx.wd, 'key_t%d_%s' % (fi, sfmt))
+            e2e.write_files(d, {'r.guard': rules, 'tests/r_tests.yaml': stext, 'dir/r.guard': rules, 'dir/tests/r_tests.yaml': stext})
+            for fmt, o in (('plain', []), ('json', ['-o', 'json']), ('junit', ['-o', 'junit'])):
+                for layout, args in (('files', ['test', '-r', 'r.guard', '-t', 'tests/r_tests.yaml']), ('dir', ['test', '-d', 'dir'])):
+                    jobs.append({'args': args + o, 'cwd': d}); meta.append((flip, sfmt, fmt, layout))
+    for (flip, sfmt, fmt, layout), (c, so, se) in zip(meta, e2e.run_many(jobs)):
+        n += 1
+        want = 0 if flip is None else 7
+        info = {'class': 'test-vs-validate', 'kind': 'unusual mapping keys under key filters', 'flipped_case': flip, 'spec_format': sfmt, 'rendering': fmt, 'layout': layout,
+                'rules': rules, 'inputs': inputs, 'validate_says': truth, 'stdout': so[:1500].decode('utf-8', 'replace'), 'stderr': se[-300:].decode('utf-8', 'replace')}
+        if c != want:
+            ctx.failing('test (%s, %s, %s) on inputs with unusual mapping keys: the expectations are what validate says about each input%s; exit %s, expected %s'
+                        % (fmt, layout, sfmt, '' if flip is None else ' except case%d' % flip, c, want), info, found=True)
+    ctx.coverage['key_shape_runs'] = n
+    ctx.coverage['key_shape_statuses'] = sorted({v for st in truth for v in st.values()})
+    ctx.coverage['evaluations'] += len(jobs) + len(inputs)
+    return n
+
+
 def run(ctx):
     ctx.build(cli=True)
     pr = ctx.proofs('C16')
     thorough = ctx.tier == 'thorough'
-    n1 = exhaustive_gsr(ctx, 6 if thorough else 4) + run_multi_files(ctx) + run_default_rule(ctx) + run_repeated_and_empty(ctx) + run_similar_inputs(ctx)
+    n1 = exhaustive_gsr(ctx, 6 if thorough else 4) + run_multi_files(ctx) + run_default_rule(ctx) + run_repeated_and_empty(ctx) + run_similar_inputs(ctx) + run_key_shapes(ctx)
     n2 = run_e2e(ctx, 300 if thorough else 60)
     ctx.coverage['distinct_nontrivial'] = n1 + n2
     ctx.coverage['rule'] = ('get_status_result: every expected status x every status list up to length %d (all distinct); end-to-end: generated rules files '
